@@ -56,6 +56,11 @@ def run(tier):
     _d_callers_mutate(chk, sites)
     _e_invalidation(chk, sites)
     _e_lazy_slots(chk)
+    _e_setter_guards(chk)
+    # ... decided semantically for the one float-valued slot with a setter: an orbit's period changed by 1e-7 drops the cache
+    from . import c05
+    from .common import Relabel
+    c05._d_period_setter(Relabel(chk, {"C05.d": "C20.e"}))
     _f_tags(chk, sites)
     _g_identity(chk)
     _h_reload(chk)
@@ -257,6 +262,43 @@ def _b_key_params(chk, sites):
                 if (short_mod, s.method.name, p) in KEY_EXEMPT_PARAMS:
                     continue
                 missing.append(p)
+        # a parameter that enters the key only through a lossy projection (round, int division, len, type, ...) does not
+        # determine the cached value: two calls with different values share the entry (hv.memo's slice, on the key expression)
+        from .. import memo
+        info = memo._FnInfo(s.method)
+        modes = {}
+        for a in args:
+            memo._roots(a, info, out=modes)
+        lossy = [p for p in params if p in read and p not in missing and any(k.split(".")[0] == p for k in modes)
+                 and not any(m == "whole" for k, m in modes.items() if k.split(".")[0] == p)]
+        # a parameter object the factory hands on whole (or whose field it reads) must enter the key whole (p, p.to_dict(), ...)
+        # or with that field: a key assembled from selected fields forgets the others
+        fnode = s.factory if not isinstance(s.factory, ast.Lambda) else s.factory.body
+        partial = []
+        for p in params:
+            if p in missing or p in lossy or p not in read:
+                continue
+            kpaths = {k for k, m in modes.items() if k.split(".")[0] == p and m == "whole"}
+            if p in kpaths:
+                continue
+            used = set()
+            for n_ in ast.walk(fnode):
+                if isinstance(n_, ast.Name) and n_.id == p and isinstance(n_.ctx, ast.Load):
+                    par = getattr(n_, "_parent", None)
+                    used.add(f"{p}.{par.attr}" if isinstance(par, ast.Attribute) and par.value is n_ else p)
+            lack = sorted(u for u in used if u != p and not any(u == k or u.startswith(k + ".") for k in kpaths))
+            if p in used and kpaths:
+                partial.append(f"{p} (whole object used, key has only {sorted(kpaths)[:4]}{'...' if len(kpaths) > 4 else ''})")
+            elif lack and kpaths:
+                partial.append(f"{','.join(lack)}")
+        if partial:
+            chk.fail("C20.b", f"{s.name}[key covers part of {','.join(x.split(' ')[0] for x in partial)}]",
+                     f"the memoised factory of {s.method.name}() depends on {partial} but the cache key {ast.unparse(s.key_expr)[:120]} is assembled from selected fields only: "
+                     f"two calls that differ in a field left out share one entry")
+        if lossy:
+            chk.fail("C20.b", f"{s.name}[key quantises {','.join(lossy)}]",
+                     f"parameter(s) {lossy} of {s.method.name}() enter the cache key {ast.unparse(s.key_expr)[:100]} only through a lossy projection while the factory "
+                     f"reads them whole: calls with different values share one entry")
         chk.check(not missing, "C20.b", f"{s.name}[key params]" if not missing else f"{s.name}[key lacks {','.join(missing)}]",
                   f"the memoised factory reads parameter(s) {missing} of {s.method.name}() that do not enter the cache key {ast.unparse(s.key_expr)[:100]}: a later call with different "
                   f"values is served the first result", sample=f"{s.method.name}: every parameter the factory reads ({[p for p in params if p in read]}) occurs in the key",
@@ -716,7 +758,93 @@ def _g_identity(chk):
 
 
 # ------------------------------------------------------------------------------------------------ h
+PLUMBING_SLOTS = {
+    "_cache": "the memo store itself; rebuilt empty on load",
+    "_generator": "lazily rebuilt pipeline/engine objects holding compiled functions (reset to None by _reconstruct_generators)",
+    "_domain_obj": "back-reference to the owner, re-established by _setup_services",
+    "_services": "service bundle, rebuilt by _setup_services",
+}
+
+
+def _e_setter_guards(chk):
+    """A setter may skip the invalidation only when the new value IS the old one: an `if` that guards reset() in a property
+    setter compares exactly (==, !=, is, is not); a tolerance (isclose / allclose / abs(...) < eps / round) leaves values
+    computed from the old state in the cache after a small but real change."""
+    n = 0
+    for m in _all_service_modules():
+        for cls in [c for c in m.tree.body if isinstance(c, ast.ClassDef)]:
+            for f in [f for f in cls.body if isinstance(f, ast.FunctionDef) and any(d.endswith(".setter") for d in ri.decorators(f))]:
+                for call in [c for c in ast.walk(f) if isinstance(c, ast.Call) and isinstance(c.func, ast.Attribute) and c.func.attr in ("reset", "clear", "pop")]:
+                    n += 1
+                    guards = []
+                    cur = getattr(call, "_parent", None)
+                    child = call
+                    while cur is not None and cur is not f:
+                        if isinstance(cur, ast.If) and any(child is x or any(child is y for y in ast.walk(x)) for x in cur.body + cur.orelse):
+                            guards.append(cur.test)
+                        child, cur = cur, getattr(cur, "_parent", None)
+                    bad = []
+                    from .. import sites as _sites_mod
+                    for g in guards:
+                        # look through flag variables: unchanged = isclose(...); if not unchanged: reset()
+                        exprs = [g] + [r for nm in ast.walk(g) if isinstance(nm, ast.Name) for r in [_sites_mod.resolve_local(f, nm)] if r is not nm]
+                        g_all = ast.Tuple(elts=exprs, ctx=ast.Load())
+                        calls = {ast.unparse(c.func).split(".")[-1] for c in ast.walk(g_all) if isinstance(c, ast.Call)}
+                        g = g_all
+                        inexact = calls & {"isclose", "allclose", "abs", "fabs", "round", "norm"}
+                        ordered = [c for c in ast.walk(g) if isinstance(c, ast.Compare) and any(isinstance(o, (ast.Lt, ast.LtE, ast.Gt, ast.GtE)) for o in c.ops)]
+                        if inexact or ordered:
+                            bad.append(ast.unparse(g)[:80])
+                    chk.check(not bad, "C20.e", f"{m.name}::{cls.name}.{f.name}[setter guard]",
+                              f"the invalidation in the setter of {f.name} is skipped under the tolerance test {bad}: a small but real change keeps results computed from the old value",
+                              sample=f"{cls.name}.{f.name} setter: invalidation unguarded or guarded by an exact comparison", nontrivial=False)
+    chk.floor("invalidating calls inside property setters", n, 3)
+
+
+def _h_save_filter(chk):
+    """The decidable part of the save/load clause: the filter that selects what is written (_HitenBase._is_computed_property,
+    applied to every attribute of the dynamics service) accepts every STATE SLOT of every dynamics service - an underscore
+    attribute that some method other than __init__ assigns (a setter, a compute step): logical state that can differ from
+    what the constructor would rebuild.  The filter is interpreted for each slot name with an int, an array and a string value."""
+    import numpy as np
+    cmod, ccls = ri.find_def("hiten.algorithms.types.core", "_HitenBase")
+    obj = SymObj(ClassRef(cmod, ccls), {}, "domain object")
+    n = 0
+    for m in _all_service_modules():
+        for cls in [c for c in m.tree.body if isinstance(c, ast.ClassDef)]:
+            if not any(bc.name == "_DynamicsServiceBase" for _, bc in ri.mro(m, cls)[1:]):
+                continue
+            slots = {}
+            for f in [f for f in cls.body if isinstance(f, ast.FunctionDef) and f.name not in ("__init__", "__setstate__", "__getstate__", "reset")]:
+                for st in ast.walk(f):
+                    if isinstance(st, (ast.Assign, ast.AugAssign, ast.AnnAssign)):
+                        for t in (st.targets if isinstance(st, ast.Assign) else [st.target]):
+                            for x in ([t] if not isinstance(t, ast.Tuple) else t.elts):
+                                if isinstance(x, ast.Attribute) and isinstance(x.value, ast.Name) and x.value.id == "self" and x.attr.startswith("_") \
+                                        and not x.attr.startswith("__") and x.attr not in PLUMBING_SLOTS:
+                                    # assigning None only (invalidation of a lazy slot) is not state
+                                    v = getattr(st, "value", None)
+                                    if isinstance(v, ast.Constant) and v.value is None:
+                                        continue
+                                    slots.setdefault(x.attr, f.name)
+            for slot, where in sorted(slots.items()):
+                n += 1
+                verdicts = {}
+                for label, val in (("int", sp.Integer(3)), ("array", np.array([1, 2], dtype=object)), ("str", "text")):
+                    ip = Interp()
+                    try:
+                        verdicts[label] = ip.apply(ip.getattr(obj, "_is_computed_property"), [slot, val], {})
+                    except (OutsideFragment, KpeRaise) as exc:
+                        raise AnalysisError(f"_is_computed_property outside fragment: {exc}")
+                bad = [k for k, v in verdicts.items() if v is not True]
+                chk.check(not bad, "C20.h", f"{m.name}::{cls.name}[save filter {slot}]",
+                          f"{cls.name}.{slot} is assigned by {where}() (logical state) but the save filter drops it for {bad} values: a reloaded object silently reverts to "
+                          f"what its constructor rebuilds", sample=f"{cls.name}.{slot} (set in {where}) is written by save", nontrivial=False)
+    chk.floor("state slots of dynamics services examined", n, 10)
+
+
 def _h_reload(chk):
+    _h_save_filter(chk)
     n = 0
     for m in ri.all_modules():
         if not m.name.startswith("hiten.system"):
